@@ -31,6 +31,10 @@ CLAIMED = {
          "generated search: every mutant the reference recognizer vp-wf classifies as ill-formed must be answered with Err or a non-empty rest by from_raw and from_raw_with_context; 31 rule-directed mutators plus character edits; candidate violations are shown to pyexpat/xmllint before being reported",
          "trusted: the recognizer oracles/wf (std-only Rust, written from the XML 1.0 5th Ed. text, 10M-input differential campaign against expat and libxml2 recorded in oracles/wf/NOTES.md); inputs outside its profile are discarded and counted",
          "DESIGN.md section 5, C02"),
+ "C03": ("fuzzing-style generated search in crash-isolated worker processes (proptest token soup, mutants, well-formed documents) plus sized adversarial families under a per-case CPU budget",
+         "generated search for panics, aborts, hangs and blow-ups of parse + infoset construction + compact and pretty printing in both views; every case is announced to the parent before it runs so that a worker death or an exhausted CPU budget is attributed to it; adversarial shape families report CPU time per size",
+         "trusted: the worker/parent crash attribution in harness/src/engine; CPU-time thresholds cannot prove polynomial behaviour",
+         "DESIGN.md section 5, C03"),
 }
 ALL = ["C%02d" % i for i in range(1, 20)]
 PENDING_REASON = "check not built yet in this snapshot of /verif (work in progress; DESIGN.md section 5 describes the planned generated-search check)"
